@@ -4,6 +4,7 @@ pub mod c07;
 pub mod c12;
 pub mod c17;
 pub mod c18;
+pub mod c19;
 pub mod c20;
 
 pub struct Prop {
@@ -17,6 +18,7 @@ pub const PROPS: &[Prop] = &[
     Prop { id: "C12", run: c12::run, replay: c12::replay },
     Prop { id: "C17", run: c17::run, replay: c17::replay },
     Prop { id: "C18", run: c18::run, replay: c18::replay },
+    Prop { id: "C19", run: c19::run, replay: c19::replay },
     Prop { id: "C20", run: c20::run, replay: c20::replay },
 ];
 
